@@ -56,12 +56,12 @@ var properties = map[string]*Property{
 				"(*Comp).varAddExpr", "(*Comp).varSubExpr", "(*Comp).varMulExpr", "(*Comp).varQuoExpr", "(*Comp).varRemExpr",
 				"(*Comp).varAndExpr", "(*Comp).varOrExpr", "(*Comp).varXorExpr", "(*Comp).varAndnotExpr",
 				"(*Comp).varSetConst", "(*Comp).varSetExpr",
-				"(*Comp).setVar", "(*Comp).setPlace",
+				"(*Comp).setVar", "(*Comp).setPlace", "(*Comp).IncDec",
 			}},
 		},
 		NotCovered: []string{
 			"the closures for non-variable places (place_ops.go, place_set.go, place_shifts.go) and for shift-assignments on variables (var_shifts.go), varQuoPow2: only their dispatch is under contract",
-			"IncDec, multi-assignment phase discipline (assign2, assignMulti), blank identifier",
+			"multi-assignment phase discipline (assign2, assignMulti), blank identifier; that the constant IncDec hands over is 1 (a package variable holding an untyped constant)",
 			"statement returns delegated to varSetZero (x *= 0, x %= 1, x &= 0 on integers) are not linked to the zero value; varQuoPow2",
 			"composition with the rest of the program (paper induction, DESIGN.md 4.6)",
 		},
@@ -208,7 +208,7 @@ var properties = map[string]*Property{
 		ID:    "C26",
 		Title: "The multiline reader splits input losslessly at complete-statement boundaries",
 		Units: []Unit{
-			{Kind: "funcs", Pkg: "base", Funcs: []string{"ReadMultiline"}},
+			{Kind: "funcs", Pkg: "base", Funcs: []string{"ReadMultiline", "(*Globals).ReadMultiline"}},
 		},
 		NotCovered: []string{
 			"that the concatenation of the chunks is the input (byte buffers and string conversion are not modelled at that level)",
